@@ -49,6 +49,11 @@ func c46Lookup(name string) e2.RunFn {
 					vsched.Point("task-mid")
 					vsched.Point("task-mid2")
 					return i + 1, nil
+				case 'Z': // succeeds with the zero value (round-12 seed: zero-valued successes rewritten on the cancelled path)
+					return 0, nil
+				case 'z':
+					vsched.Point("task-mid")
+					return 0, nil
 				case 'E':
 					return 0, fmt.Errorf("task %d failed", i)
 				}
@@ -96,6 +101,10 @@ func c46Lookup(name string) e2.RunFn {
 			case 'V', 'S':
 				if vals[i] != i+1 || errs[i] != nil {
 					x.Violation = fmt.Sprintf("task %d (%c): got (%d,%v) want (%d,nil)", i, k, vals[i], errs[i], i+1)
+				}
+			case 'Z', 'z':
+				if vals[i] != 0 || errs[i] != nil {
+					x.Violation = fmt.Sprintf("task %d (%c): got (%d,%v) want (0,nil)", i, k, vals[i], errs[i])
 				}
 			case 'E':
 				if vals[i] != 0 || errs[i] == nil || errs[i].Error() != fmt.Sprintf("task %d failed", i) {
@@ -145,6 +154,18 @@ func c46Scenarios(thorough bool) (small, big []string) {
 		}
 	}
 	rec("")
+	// tasks that succeed with the zero value, alone and next to waiting / slow / failing tasks
+	zs := []string{"Z|cancel=0", "Z|cancel=1", "z|cancel=1", "ZW|cancel=1", "WZ|cancel=1", "zW|cancel=1", "ZS|cancel=1", "ZE|cancel=1", "ZWS|cancel=1", "SZW|cancel=1", "zWV|cancel=1"}
+	if thorough {
+		zs = append(zs, "ZZW|cancel=1", "zzW|cancel=1", "WzS|cancel=1", "ZWSE|cancel=1", "zWzW|cancel=1")
+	}
+	for _, s := range zs {
+		if len(strings.SplitN(s, "|", 2)[0]) <= 2 {
+			small = append(small, s)
+		} else {
+			big = append(big, s)
+		}
+	}
 	return
 }
 
@@ -173,6 +194,6 @@ func c46(c *report.Check) {
 	}
 	sum := e2.Drive(c, plans, 0)
 	c.Set("deviation_bound", tb)
-	reportE2(c, sum, fmt.Sprintf("promise.All with 0..%d tasks of kinds value/error/waits-for-cancel/slow-value and an optional canceller thread, real goroutines under the scheduler (statement-level points in promise.go, channel operations as try-operations): every schedule of %d scenarios with at most %d deviations (preemptions or non-default picks at blocking points) from the canonical schedule", len(big[len(big)-1])-9, len(all), tb), all)
+	reportE2(c, sum, fmt.Sprintf("promise.All with 0..%d tasks of kinds value/error/waits-for-cancel/slow-value (plus scenarios with tasks that succeed with the zero value) and an optional canceller thread, real goroutines under the scheduler (statement-level points in promise.go, channel operations as try-operations): every schedule of %d scenarios with at most %d deviations (preemptions or non-default picks at blocking points) from the canonical schedule", len(big[len(big)-1])-9, len(all), tb), all)
 	c.Assume("tasks respect cancellation (documented precondition of All)", "context cancellation is an atomic step")
 }
